@@ -330,7 +330,7 @@ def suite_two_clients(ctx):
             sel.append(c)
     if not ctx.thorough:
         sel = rng.sample(sel, 25)
-    states = ['suppress', 'suppress-wait-nrc', 'override-literal', 'override-callable', 'adopted-timing', 'set_config', 'failed-call']
+    states = ['suppress', 'suppress-wait-nrc', 'override-literal', 'override-callable', 'adopted-timing', 'set_config', 'failed-call', 'reopened-adopted-timing']
     for c in sel:
         def one(conn, client):
             st = {'n': 0}
@@ -358,6 +358,13 @@ def suite_two_clients(ctx):
                 elif state == 'adopted-timing':
                     aconn.responder = lambda p: [(1, bytes([0x50, p[1], 0x00, 0x07, 0x00, 0x09]))]
                     a.change_session(3)
+                elif state == 'reopened-adopted-timing':
+                    # both clients were closed and opened again once (each used in a with-block before, say); then the other one adopts server timing
+                    a.close(); a.open()
+                    if created == 'before':
+                        b.close(); b.open()
+                    aconn.responder = lambda p: [(1, bytes([0x50, p[1], 0x00, 0x07, 0x00, 0x09]))]
+                    a.change_session(3)
                 elif state == 'set_config':
                     a.set_configs({'exception_on_negative_response': False, 'tolerate_zero_padding': False, 'p2_timeout': 0.001, 'request_timeout': 0.002, 'standard_version': 2006})
                 else:
@@ -371,6 +378,8 @@ def suite_two_clients(ctx):
                 try:
                     if created == 'after':
                         b, bconn = cl.make_client(cfg, extra=c.config())
+                        if state == 'reopened-adopted-timing':
+                            b.close(); b.open()
                     got = one(bconn, b)
                 finally:
                     for cm in reversed(cms):
